@@ -16,6 +16,7 @@ func TestPoolFullAndPrelaunchedAgree(t *testing.T) {
 		{"Fa", "Ta", "Ea", "Wa", "Ga", "Tb", "Eb", "Wb", "Gb"},
 		{"Fa", "Sa", "Fa!", "Sa", "Sa", "Sa", "La?", "Za~", "Ga!", "Pa!", "C?", "Xs~", "Xf!"},
 		{"Fa", "Fa", "Sa", "Sa", "Sa!", "Sa", "Ta~", "Wa?", "Ea!"},
+		{"C", "Fa", "Fa", "D", "Sa", "Y1", "Fa", "Fa", "Y1", "Y3", "D", "C", "D!", "Y0", "R", "Sa", "Y2"},
 	} {
 		var prev string
 		for _, full := range []bool{true, false} {
